@@ -407,7 +407,75 @@ pub struct Trace {
     pub lines: Vec<String>,
 }
 
+// ------------------------------------------------------------------------------------------
+// process-killing inputs: an abort inside a decoder (allocation failure, double panic) cannot be
+// caught; a SIGABRT handler turns it into a verdict that names the input being decoded
+// ------------------------------------------------------------------------------------------
+
+thread_local! {
+    /// (pointer, length) of the input the current thread is decoding
+    static CRUMB: std::cell::Cell<(*const u8, usize)> = const { std::cell::Cell::new((std::ptr::null(), 0)) };
+}
+
+static ABORT_REPLAY_PATH: std::sync::OnceLock<std::ffi::CString> = std::sync::OnceLock::new();
+static ABORT_PROPERTY: std::sync::OnceLock<String> = std::sync::OnceLock::new();
+
+fn wr(fd: i32, b: &[u8]) {
+    unsafe {
+        libc::write(fd, b.as_ptr() as *const libc::c_void, b.len());
+    }
+}
+
+extern "C" fn on_sigabrt(_sig: libc::c_int) {
+    // no allocation in here: the allocator is what just failed
+    let (ptr, len) = CRUMB.with(|c| c.get());
+    let mut hex = [0u8; 4096];
+    let mut n = 0usize;
+    if !ptr.is_null() {
+        let input = unsafe { std::slice::from_raw_parts(ptr, len) };
+        for b in input.iter().take(hex.len() / 2) {
+            hex[n] = b"0123456789abcdef"[(b >> 4) as usize];
+            hex[n + 1] = b"0123456789abcdef"[(b & 15) as usize];
+            n += 2;
+        }
+    }
+    let prop = ABORT_PROPERTY.get().map(|s| s.as_bytes()).unwrap_or(b"C03");
+    if let Some(path) = ABORT_REPLAY_PATH.get() {
+        let fd = unsafe { libc::open(path.as_ptr(), libc::O_WRONLY | libc::O_CREAT | libc::O_TRUNC, 0o644) };
+        if fd >= 0 {
+            wr(fd, b"{\"property\": \"");
+            wr(fd, prop);
+            wr(fd, b"\", \"signature\": \"abort/decoder-killed-the-process\", \"detail\": \"SIGABRT while this input was being decoded (allocation failure or abort inside the decoder)\", \"replay\": {\"input_hex\": \"");
+            wr(fd, &hex[..n]);
+            wr(fd, b"\"}}\n");
+            unsafe { libc::close(fd) };
+        }
+        wr(1, b"VIOLATION property=");
+        wr(1, prop);
+        wr(1, b" replay=");
+        wr(1, path.as_bytes());
+        wr(1, b"\n");
+    }
+    wr(1, b"  signature: abort/decoder-killed-the-process\n  detail: the process received SIGABRT (allocation failure or abort inside the decoder) while decoding the input ");
+    wr(1, &hex[..n]);
+    wr(1, b"\n");
+    unsafe { libc::_exit(1) };
+}
+
+/// Installs the SIGABRT handler (once per process).
+pub fn install_abort_verdict(property: &str) {
+    let root = std::env::var("VERIF_ROOT").unwrap_or_else(|_| "/verif".into());
+    let dir = format!("{root}/replays/{property}");
+    let _ = std::fs::create_dir_all(&dir);
+    let _ = ABORT_REPLAY_PATH.set(std::ffi::CString::new(format!("{dir}/abort_decoder-killed-the-process.json")).unwrap());
+    let _ = ABORT_PROPERTY.set(property.to_string());
+    unsafe {
+        libc::signal(libc::SIGABRT, on_sigabrt as *const () as libc::sighandler_t);
+    }
+}
+
 pub fn eval(entry: Entry, input: &[u8], acc: &mut Acc, mut trace: Option<&mut Trace>) {
+    CRUMB.with(|c| c.set((input.as_ptr(), input.len())));
     acc.evaluations += 1;
     let (some_ok, end, nontrivial) = match entry {
         Entry::Packet(n) => eval_packet(n, input, acc, &mut trace),
